@@ -135,7 +135,7 @@ pub fn differential(prog: &Program, site: &str, family: &str, case: &Value, ctx:
         CompileOutcome::Err(e) => {
             let (stage, msg) = describe_err(&e);
             rep.tag(format!("compile:rejected:{}", stage));
-            rep.sample = Some(json!({"rejected": msg, "site": site}));
+            rep.sample = Some(json!({"rejected": msg, "site": site, "source": text}));
             let m = normalise_msg(&msg);
             for p in opts.props_reject {
                 rep.findings.push(Finding {
